@@ -4,7 +4,7 @@
 
 const char *wl_sched_names[] = { "BASIC", "BASIC_WAIT", "PRIO", "RANDWS" };
 static const ABT_sched_predef sched_predefs[] = { ABT_SCHED_BASIC, ABT_SCHED_BASIC_WAIT, ABT_SCHED_PRIO, ABT_SCHED_RANDWS };
-const char *wl_pool_names[] = { "FIFO", "FIFO_WAIT", "RANDWS" };
+const char *wl_pool_names[] = { "FIFO", "FIFO_WAIT", "RANDWS", "USER" };
 static const ABT_pool_kind pool_kinds[] = { ABT_POOL_FIFO, ABT_POOL_FIFO_WAIT, ABT_POOL_RANDWS };
 
 static void env_int(const char *name, long v)
@@ -57,11 +57,134 @@ void wl_env_swarm(void)
     }
 }
 
+/* ---- a user-defined FIFO pool (ABT_pool_user_def): the library then keeps the
+ * unit <-> work-unit hash map for its units and never touches the built-in queue links ---- */
+typedef struct unode {
+    ABT_thread th;
+    struct unode *next;
+    int queued, pool;
+} unode;
+typedef struct upq {
+    ABT_pool pool;
+    unode *head, *tail;
+    size_t n;
+} upq;
+static upq UPQ[WL_MAX_POOLS];
+static int nupq;
+static long up_creates, up_frees;
+
+static int upq_index(ABT_pool pool)
+{
+    for (int i = 0; i < nupq; i++)
+        if (UPQ[i].pool == pool)
+            return i;
+    sim_fail("upool:unknown-pool", "a user-pool callback was called with a pool handle that is not a user pool");
+    return -1;
+}
+static ABT_unit up_create_unit(ABT_pool pool, ABT_thread thread)
+{
+    unode *u = (unode *)calloc(1, sizeof *u);
+    u->th = thread;
+    u->pool = upq_index(pool);
+    up_creates++;
+    return (ABT_unit)u;
+}
+static void up_free_unit(ABT_pool pool, ABT_unit unit)
+{
+    unode *u = (unode *)unit;
+    SIM_CHECK(u->pool == upq_index(pool), "upool:free-wrong-pool", "free_unit called with a unit of another pool");
+    SIM_CHECK(!u->queued, "upool:free-queued-unit", "free_unit called for a unit that is still queued in the pool");
+    u->pool = -1;
+    up_frees++;
+    free(u);
+}
+static ABT_bool up_is_empty(ABT_pool pool)
+{
+    return UPQ[upq_index(pool)].n == 0 ? ABT_TRUE : ABT_FALSE;
+}
+static size_t up_get_size(ABT_pool pool)
+{
+    return UPQ[upq_index(pool)].n;
+}
+static ABT_thread up_pop(ABT_pool pool, ABT_pool_context ctx)
+{
+    (void)ctx;
+    upq *q = &UPQ[upq_index(pool)];
+    unode *u = q->head;
+    if (!u)
+        return ABT_THREAD_NULL;
+    q->head = u->next;
+    if (!q->head)
+        q->tail = NULL;
+    q->n--;
+    u->queued = 0;
+    u->next = NULL;
+    return u->th;
+}
+static void up_push(ABT_pool pool, ABT_unit unit, ABT_pool_context ctx)
+{
+    (void)ctx;
+    int pi = upq_index(pool);
+    upq *q = &UPQ[pi];
+    unode *u = (unode *)unit;
+    SIM_CHECK(u->pool == pi, "upool:push-wrong-pool", "a unit created for user pool %d was pushed to user pool %d", u->pool, pi);
+    SIM_CHECK(!u->queued, "upool:push-twice", "a unit was pushed while it is already queued");
+    u->queued = 1;
+    u->next = NULL;
+    if (q->tail)
+        q->tail->next = u;
+    else
+        q->head = u;
+    q->tail = u;
+    q->n++;
+}
+static ABT_pool mk_user_pool(void)
+{
+    ABT_pool_user_def def;
+    ABT_pool_config cfg;
+    ABT_pool p;
+    ABT_bool automatic = ABT_TRUE;
+    ABT_OK(ABT_pool_user_def_create(up_create_unit, up_free_unit, up_is_empty, up_pop, up_push, &def));
+    ABT_OK(ABT_pool_user_def_set_get_size(def, up_get_size));
+    ABT_OK(ABT_pool_config_create(&cfg));
+    ABT_OK(ABT_pool_config_set(cfg, ABT_pool_config_automatic.key, ABT_pool_config_automatic.type, &automatic));
+    ABT_OK(ABT_pool_create(def, cfg, &p));
+    ABT_OK(ABT_pool_config_free(&cfg));
+    ABT_OK(ABT_pool_user_def_free(&def));
+    SIM_CHECK(nupq < WL_MAX_POOLS, "infra:too-many-user-pools", "user pool table full");
+    memset(&UPQ[nupq], 0, sizeof UPQ[0]);
+    UPQ[nupq++].pool = p;
+    return p;
+}
+int wl_pool_is_user(ABT_pool pool)
+{
+    for (int i = 0; i < nupq; i++)
+        if (UPQ[i].pool == pool)
+            return 1;
+    return 0;
+}
+
+int wl_thread_is_in_pool(ABT_thread th)
+{
+    /* only for a unit that cannot change its pool meanwhile */
+    ABT_pool pool;
+    ABT_unit unit;
+    ABT_OK(ABT_thread_get_last_pool(th, &pool));
+    if (!wl_pool_is_user(pool))
+        return wb_thread_is_in_pool(th);
+    ABT_OK(ABT_thread_get_unit(th, &unit));
+    return ((unode *)unit)->queued;
+}
+
 static ABT_pool mkpool(wl_rt *rt, int flags, int es)
 {
     int k = (flags & WL_RT_FIFO_ONLY) ? 0 : (int)plan_n(3);
     ABT_pool p;
-    ABT_OK(ABT_pool_create_basic(pool_kinds[k], ABT_POOL_ACCESS_MPMC, ABT_TRUE, &p));
+    if (!(flags & (WL_RT_FIFO_ONLY | WL_RT_BUILTIN_POOLS)) && plan_n(5) == 0) {
+        k = 3;
+        p = mk_user_pool();
+    } else
+        ABT_OK(ABT_pool_create_basic(pool_kinds[k], ABT_POOL_ACCESS_MPMC, ABT_TRUE, &p));
     int i = rt->npools++;
     rt->pools[i] = p;
     rt->pool_es[i] = es;
@@ -82,6 +205,8 @@ static int pick_sched(int flags)
 void wl_rt_start(wl_rt *rt, int flags)
 {
     memset(rt, 0, sizeof *rt);
+    nupq = 0;
+    up_creates = up_frees = 0;
     wl_env_swarm();
     ABT_OK(ABT_init(0, NULL));
     int maxes = sim_limit("es", 4);
@@ -160,6 +285,9 @@ void wl_rt_stop(wl_rt *rt)
     ABT_OK(ABT_finalize());
     sim_progress();
     sim_ledger_check_empty("after ABT_finalize");
+    SIM_CHECK(up_creates == up_frees, "upool:unit-leaked", "user pools: create_unit was called %ld times, free_unit %ld times by the end of ABT_finalize", up_creates, up_frees);
+    if (nupq)
+        sim_count("rt.user_pool_units", (uint64_t)up_creates);
 }
 
 ABT_pool wl_any_pool(wl_rt *rt)
